@@ -964,7 +964,13 @@ func (g *gen) genOp(name string) {
 		}
 		g.emit(cur, "annotation "+k.Key)
 	case "svc_update":
-		keys := g.keys(KService)
+		var keys []string
+		for _, k := range g.keys(KService) {
+			ns, name, _ := strings.Cut(k, "/")
+			if i := svcIndex(ns, name); svcDefs[i].ns == ns && svcDefs[i].name == name {
+				keys = append(keys, k) // (a/dflt is not regenerated)
+			}
+		}
 		if len(keys) == 0 {
 			return
 		}
